@@ -253,6 +253,19 @@ func ruleOptFlow(rule string) RuleFn {
 				c.Check(hit == nil, rule, "newResultObjectField hands the options to "+an.CalleeName(k), "with a non-empty As list the result is rebuilt by a call that receives the options", "the result built by "+an.CalleeName(k)+" for a result-object field never sees the constructor's options: dig.As given next to a field of this kind is silently dropped, although the same registration written with the option form (dig.Group + dig.As) honours it", k, nil)
 			}
 			c.Floor(rule, "result-building calls in newResultObjectField", len(builders), 2)
+			// every field - group-tagged or not - goes through newResult, where the type checks live (no dig.In,
+			// no error, no pointer to a result object ...): what dig.Group rejects, the group tag rejects
+			var viaNewResult []ssa.Instruction
+			for _, k := range builders {
+				if an.CalleeName(k) == "dig.newResult" {
+					viaNewResult = append(viaNewResult, k.(ssa.Instruction))
+				}
+			}
+			hitS, _ := an.PathTo(fn, nil, func(i ssa.Instruction) bool {
+				r, ok := i.(*ssa.Return)
+				return ok && !isErrorExit(r)
+			}, an.NewGates().AddInstr(viaNewResult...))
+			c.Check(hitS == nil && len(viaNewResult) > 0, rule, "every result-object field passes the type checks of newResult", "newResult on every path to a success return", "a field of a result object (a group-tagged one) is accepted without newResult's type checks: struct{dig.Out; V T `group:\"g\"`} accepts result types (parameter objects, errors, pointers to result objects, nested result objects) that the same registration written with dig.Group(\"g\") rejects", hitS, nil)
 			// a group-tagged field that is rebuilt through the option form carries its group: on the group-tag path,
 			// newResult is reached only after opts.Group was set from the tag
 			tagEdges := an.EdgesWhere(fn, func(ft an.Fact) bool {
